@@ -229,6 +229,44 @@ def drop_dead_statements(tree):
     return n
 
 
+def for_else_without_break(tree):
+    """N15: the else arm of a loop that has no `break` runs whenever the loop ends: the same
+    as statements placed after the loop."""
+    n = 0
+    for node in ast.walk(tree):
+        for field in ('body', 'orelse', 'finalbody'):
+            blk = getattr(node, field, None)
+            if not isinstance(blk, list):
+                continue
+            i = 0
+            while i < len(blk):
+                st = blk[i]
+                if isinstance(st, (ast.For, ast.While)) and st.orelse:
+                    has_break = False
+                    todo = list(st.body)
+                    while todo:
+                        x = todo.pop()
+                        if isinstance(x, ast.Break):
+                            has_break = True
+                            break
+                        if isinstance(x, (ast.For, ast.While, ast.FunctionDef, ast.AsyncFunctionDef,
+                                          ast.ClassDef)):
+                            # a break of an inner loop does not leave this one; its else arm may
+                            todo.extend(getattr(x, 'orelse', []) if isinstance(
+                                x, (ast.For, ast.While)) else [])
+                            continue
+                        todo.extend(c for c in ast.iter_child_nodes(x) if isinstance(c, ast.stmt))
+                        for h in getattr(x, 'handlers', []) or []:
+                            todo.extend(h.body)
+                    if not has_break:
+                        tail = st.orelse
+                        st.orelse = []
+                        blk[i + 1:i + 1] = tail
+                        n += 1
+                i += 1
+    return n
+
+
 def _strip_tail_continue(blk):
     n = 0
     if not blk:
@@ -373,6 +411,7 @@ def _is_keys_call(c):
 def normalise(tree):
     r = _Rewriter()
     r.visit(tree)
+    r.n += for_else_without_break(tree)
     r.n += drop_dead_statements(tree)
     r.n += loops_and_comprehensions(tree)
     ast.fix_missing_locations(tree)
